@@ -182,8 +182,8 @@ let trace_file path =
            let v = judge !cur es in
            let replay = (canon v.v_after = digest) in
            cur := v.v_after;
-           Printf.printf "R %s %d %d %d %d %d %d %d %d %d %d %d %d %d %d %d %d %d %d |%s\n" tag (b2i v.v_wf) (b2i replay) (b2i v.v_c01) (b2i v.v_c01_strict) (b2i v.v_paren) (b2i v.v_lenpres)
-             (b2i v.v_c02) (b2i v.v_c02_rem) (b2i v.v_layout) (b2i v.v_case) (b2i v.v_ident) (b2i v.v_same_count) (b2i v.v_cterm) (b2i v.v_wsadj) (b2i v.v_kinds_ok) (b2i v.v_shape) (b2i v.v_glue) nl_before
+           Printf.printf "R %s %d %d %d %d %d %d %d %d %d %d %d %d %d %d %d %d %d %d %d |%s\n" tag (b2i v.v_wf) (b2i replay) (b2i v.v_c01) (b2i v.v_c01_strict) (b2i v.v_paren) (b2i v.v_lenpres)
+             (b2i v.v_c02) (b2i v.v_c02_rem) (b2i v.v_layout) (b2i v.v_case) (b2i v.v_ident) (b2i v.v_same_count) (b2i v.v_cterm) (b2i v.v_wsadj) (b2i v.v_kinds_ok) (b2i v.v_shape) (b2i v.v_glue) (b2i v.v_c02_trail) nl_before
              (String.concat "" (List.map (fun n -> " " ^ string_of_int (int_of_nat n)) v.v_changed))
          | _ -> failwith "bad R")
       | "S" :: isnorm :: rest ->
